@@ -72,7 +72,7 @@ theorem setCell_cells (s : St) (q r : Seq) (c : Cell) : (setCell s q c).cells r 
 
 /-- the thread holds the condition's own lock -/
 def PC.holdsCond : PC → Bool
-  | .s2 | .s2w | .s3 | .n1 | .n2 => true
+  | .s2 | .s2w | .s2f | .s3 | .n1 | .n2 => true
   | _ => false
 
 /-- the thread holds the receive lock -/
@@ -92,7 +92,7 @@ def PC.completing : PC → Bool
 
 /-- inside `serve()` (after `Timeout(timeout)` was computed) -/
 def PC.inServe : PC → Bool
-  | .s1 | .s2 | .s2w | .zz | .s2r | .s3 | .p0 | .x0 | .r0 | .n0 | .n1 | .n2 | .d0 | .d1 | .d2 | .d3 | .d4 | .d5 => true
+  | .s1 | .s2 | .s2w | .s2f | .zz | .s2r | .s3 | .p0 | .x0 | .r0 | .n0 | .n1 | .n2 | .d0 | .d1 | .d2 | .d3 | .d4 | .d5 => true
   | _ => false
 
 /-- the client thread owns a live request (its `seq` field is meaningful) -/
